@@ -496,6 +496,25 @@ def _check_index_spaces(prog, ctx):
                                   "a with-boundary position is related to the with-boundary count",
                                   "`%s` relates a position in the numbering with boundary points (index + lowerBorder) to num_points, the count "
                                   "WITHOUT boundary points: off by the dropped boundary points when boundary=False" % src(node)[:120])
+    # the half weight of the composite trapezoidal rule belongs to the two points on the GLOBAL boundary: its condition is stated on
+    # with-boundary positions (index + lowerBorder); the bare local index is 0 for the first interior point when boundary=False
+    wf = prog.func("Grid.TrapezoidalGrid1D.weight_composite_trapezoidal")
+    ctx.touch(wf)
+    idx_p = wf.params[1]
+    halves = [x for x in ast.walk(wf.node) if isinstance(x, ast.IfExp) and any(isinstance(c_, ast.Constant) and c_.value == 0.5 for c_ in (x.body, x.orelse))]
+    halves += [x for x in ast.walk(wf.node) if isinstance(x, ast.If) and any(isinstance(c_, ast.Constant) and c_.value == 0.5 for st_ in x.body + x.orelse for c_ in ast.walk(st_))]
+    bare = []
+    for h in halves:
+        for cmp_ in [y for y in ast.walk(h.test) if isinstance(y, ast.Compare)]:
+            for side in [cmp_.left] + list(cmp_.comparators):
+                if isinstance(side, ast.Name) and side.id == idx_p:
+                    bare.append(cmp_)
+    if halves:
+        ctx.check(not bare, "C02.D3", R.key_of(wf, "half-weight-on-global-boundary"), wf.loc(bare[0]) if bare else wf.loc(),
+                  "the half weight is decided on positions in the numbering with boundary points",
+                  "`%s` decides the half weight of the trapezoidal rule on the local index; with boundary=False (lowerBorder = 1) the first and last "
+                  "interior points then get h/2 instead of h" % (src(bare[0])[:100] if bare else ""))
+        n += 1 if bare else 0
     ctx.floor("C02.D3.index-space", n, 2, "with-boundary position expressions in the 1-D grids")
 
 
